@@ -81,6 +81,7 @@ func rounds(n, threads int) {
 type behaviour struct {
 	Script map[string][][]string `json:"script"`
 	Sched  [][]string            `json:"sched"`
+	First  string                `json:"first"` // initial state (default Inactive)
 }
 
 type thr struct {
@@ -123,6 +124,9 @@ func replay() {
 	verifkit.EachCase(func(i int, raw json.RawMessage) {
 		b := verifkit.Decode[behaviour](raw)
 		first := "Inactive"
+		if b.First != "" {
+			first = b.First
+		}
 		ns := implchord.VerifNewNodeState(parse(first))
 		threads := map[string]*thr{}
 		for name, script := range b.Script {
